@@ -16,6 +16,8 @@
      violated clauses, computed from the specification only.
   5. Every rejected record is named  <format>:<position>:<class-or-kind>[:<mode>]  from the cell
      it belongs to / the features TLC reports, and goes through ctx.finding().
+  6. The same three properties over HISTORIES (spec/EncoderHist.tla, EncoderHistTrace.tla,
+     EncoderHistMech.tla, harness/fam_enchist.go): see checks/enchistlib.py.
 """
 import json
 import os
@@ -23,6 +25,7 @@ import random
 
 from vlib import Undecided, read_ndjson
 from tlagen import gen_mc
+import enchistlib
 
 SEVS = [0, 1, 2, 3, 4, 5, 6, 8, 9, 10, 11, 17, 18, 33]      # Off (7) is not a severity to log at
 TEXT_POS = ["string", "error", "stringer", "strs", "fallback", "bytes"]
@@ -630,6 +633,8 @@ def run_format(ctx, fmt, replay):
             ctx.sample(dict(abstract_tree=gen.cases[len(gen.cases) // 2]["attrs"],
                             payload=details[len(gen.cases) // 2]["payload"][:300]))
     ctx.nontrivial += len(sigs)
+    # ---- the same property over histories (spec/EncoderHist.tla, checks/enchistlib.py)
+    enchistlib.run_history(ctx, fmt)
     ctx.extra["trees_enumerated_by_tlc"] = len(trees)
     ctx.extra["records_by_source"] = {k: sum(1 for t in g.tags + gt.tags if t["t"] == k) for k in ("cls", "value", "tree", "grid", "big")}
     ctx.extra["finding_keys"] = sorted({k for k, _ in allfound})
@@ -642,13 +647,19 @@ def run_format(ctx, fmt, replay):
         rule="records = (position x character class) cells, value-kind cells, every attribute tree TLC enumerated "
              "(<=%d nodes), presentation grid, seeded random big records, in production and go-test mode; "
              "non-trivial = distinct abstract records (message classes, attribute tree with kinds/classes, name, "
-             "severity, caller, widths) executed and validated" % (3 if quick else 4),
+             "severity, caller, widths) executed and validated; PLUS histories of EncoderHist.tla: edge cover of the "
+             "TLC graphs of the groups cfg/seq/lvl/dbg/big (every configuration call sequence followed by a record, every "
+             "pair/triple of consecutive records and collections, register/width/switch events between records, size "
+             "classes) and seeded random deeper histories, one process per group and process kind, non-trivial there = "
+             "distinct (group, process kind, previous event, event with the logger's reported mode) pairs" % (3 if quick else 4),
         exhaustive=True)
 
 
 def do_replay(ctx, fmt, path):
     with open(path) as fh:
         rp = json.load(fh)["replay"]
+    if rp.get("kind") == "enchist":
+        return enchistlib.replay(ctx, fmt, rp)
     case = rp["case"]
     case["id"] = rp["case"]["id"]
     ctx.seed = rp.get("seed", ctx.seed)
